@@ -26,6 +26,9 @@ def run(rep, prog, tier):
     from ..report import Retag
     from .c04 import r5 as merge_targets
     merge_targets(Retag(rep, "C05-R7"), prog, "C05-R7")
+    rep.rule("C05-R8", "a dead writer publishes nothing (shared with C11-R8): SegmentUpdater::save_metas writes meta.json only on the true arm of is_alive(); tasks that were already queued when the writer was rolled back or dropped still run on the updater thread, and without the guard they overwrite the meta.json of the replacement writer — a reload moves back to an older commit")
+    from .c11 import publish_only_alive
+    publish_only_alive(rep, prog, "C05-R8")
 
 
 def r1(rep, prog):
